@@ -427,6 +427,28 @@ def r197(ctx, fx):
         ctx.fail_closed(rid, "no store of MachineBreakpoints found in a set_breakpoints")
 
 
+def adapter_backed_ram_guarded(fx):
+    """True iff create_machine registers the adapter-backed ram() only where the adapter has no program of its own (used by C20 R20.13 too)"""
+    class _Ctx:
+        def __init__(self):
+            self.bad = False
+
+        def rule(self, *a):
+            return "x"
+
+        def inst(self, *a, **k):
+            pass
+
+        def finding(self, *a, **k):
+            self.bad = True
+
+        def fail_closed(self, *a, **k):
+            self.bad = True
+    c = _Ctx()
+    r198(c, fx)
+    return not c.bad
+
+
 def r198(ctx, fx):
     rid = ctx.rule("R19.8", "the machine thread of the test runner evaluates assertions while it executes, holding the running state; a request holds the adapter and then "
                    "asks for the running state. So nothing the machine thread evaluates may take the adapter's lock: the debug session registers its adapter-backed "
